@@ -272,6 +272,23 @@ pub fn build_index(r: &mut StdRng, k: &Knobs, storage: &str) -> Result<Built> {
     }
     w.commit()?;
   }
+  // sometimes a segment loses most of its documents afterwards: its postings then outnumber
+  // its live documents (statistics with deletions, candidates among tombstones)
+  if k.deletions && n_commits > 0 && chance(r, 1, 3) {
+    let victims: Vec<String> = ids[..(n_docs / n_commits).max(1)].to_vec();
+    let keep = r.gen_range(0..=victims.len() / 4);
+    for id in victims.iter().skip(keep) {
+      w.delete_document(id)?;
+    }
+    if chance(r, 1, 2) {
+      ver += 1;
+      let id = format!("d{:02}", n_docs);
+      let d = make_doc(r, k, &id, ver, vocab);
+      w.add_document(&doc_from_json(d.clone()))?;
+      versions.insert((id, ver), d);
+    }
+    w.commit()?;
+  }
   drop(w);
   Ok(Built {
     scratch,
